@@ -12,9 +12,13 @@ import (
 	"net/http/httptest"
 	"os"
 	"strings"
+	"sync"
 	"time"
 
+	"github.com/bitcoin-sv/block-headers-service/domains"
 	"github.com/bitcoin-sv/block-headers-service/metrics"
+	"github.com/bitcoin-sv/block-headers-service/repository"
+	"github.com/bitcoin-sv/block-headers-service/service"
 	"github.com/bitcoin-sv/block-headers-service/transports/http/endpoints"
 	httpserver "github.com/bitcoin-sv/block-headers-service/transports/http/server"
 	"github.com/bitcoin-sv/block-headers-service/transports/websocket"
@@ -113,4 +117,85 @@ func c10VerifDir() string {
 		return d
 	}
 	return "/verif"
+}
+
+// tokPauser is a scheduling point in the token repository: the next lookup of the armed value is held right
+// after the underlying lookup returned, until released.  Used by C10 (RACE, OVL) and C09 (overlap cases).
+type tokPauser struct {
+	mu       sync.Mutex
+	pauseTok string
+	armed    bool
+	reached  chan struct{}
+	release  chan struct{}
+}
+
+// arm: the next lookup of tok is held.  reached is closed when it is; close(release) lets it go on.
+func (p *tokPauser) arm(tok string) (reached, release chan struct{}) {
+	p.mu.Lock()
+	defer p.mu.Unlock()
+	p.pauseTok, p.armed, p.reached, p.release = tok, true, make(chan struct{}), make(chan struct{})
+	return p.reached, p.release
+}
+
+func (p *tokPauser) disarm() {
+	p.mu.Lock()
+	p.armed = false
+	p.mu.Unlock()
+}
+
+// install decorates s.Repo.Tokens and rebuilds the token service around the decorated repository exactly as
+// service.NewServices builds it (the engine / websocket server must be built AFTER this: NewFullStack).
+func (p *tokPauser) install(s *Stack) {
+	s.Repo.Tokens = &pausingTokRepo{inner: s.Repo.Tokens, p: p}
+	s.Services.Tokens = service.NewTokenService(s.Repo, s.Cfg.HTTP.AuthToken)
+}
+
+type pausingTokRepo struct {
+	inner repository.Tokens
+	p     *tokPauser
+}
+
+func (r *pausingTokRepo) AddTokenToDatabase(t *domains.Token) error { return r.inner.AddTokenToDatabase(t) }
+func (r *pausingTokRepo) DeleteToken(t string) error                { return r.inner.DeleteToken(t) }
+func (r *pausingTokRepo) GetTokenByValue(tok string) (*domains.Token, error) {
+	t, err := r.inner.GetTokenByValue(tok)
+	r.p.mu.Lock()
+	var rel chan struct{}
+	if r.p.armed && r.p.pauseTok == tok {
+		r.p.armed = false
+		rel = r.p.release
+		close(r.p.reached)
+	}
+	r.p.mu.Unlock()
+	if rel != nil {
+		select {
+		case <-rel:
+		case <-time.After(10 * time.Second):
+		}
+	}
+	return t, err
+}
+
+// adminTokenVariants: admin-token configurations beside the default one - lengths around the length of issued
+// tokens (32) and far from it, and characters other than alphanumerics that the header grammar allows
+// (no space; no ';' ':' '$' because of the case syntax; nothing that needs escaping in a URL path segment).
+func adminTokenVariants() []string {
+	rpt := func(pat string, n int) string {
+		var sb strings.Builder
+		for sb.Len() < n {
+			sb.WriteString(pat)
+		}
+		return sb.String()[:n]
+	}
+	return []string{
+		"Z",
+		rpt("aB3dE6gH9", 31),
+		rpt("Qw3rTy7u1", 32),
+		rpt("zX9cV8bN7", 33),
+		rpt("0123456789abcdef", 40),
+		"123e4567-e89b-12d3-a456-426614174000",
+		rpt("fedcba9876543210", 64),
+		rpt("LongAdminToken0", 100),
+		"Adm-1n_t0k.en~x!y*z(w)+v,u=s@q",
+	}
 }
